@@ -55,11 +55,12 @@ def run_unit(unit_name, repo, workdir, canary=False):
     out = dict(unit=unit_name, status="undecided", failures=[], reason="", functions=0, verified=0,
                clauses=0, items=[], assumptions=[], smt_ms=0, wall_s=0.0, cmd="", fn_results={})
     helpers = {}
+    nodecr = set()
     os.makedirs(workdir, exist_ok=True)
     gen = os.path.join(workdir, unit_name + ("_canary" if canary else "") + ".rs")
     for attempt in range(4):
         try:
-            u = build_unit(tpl, repo, canary=canary, helpers=helpers)
+            u = build_unit(tpl, repo, canary=canary, helpers=helpers, nodecr=nodecr)
         except (ExtractError, LexError) as e:
             out["reason"] = "extract: %s" % e
             return out
@@ -76,6 +77,17 @@ def run_unit(unit_name, repo, workdir, canary=False):
                 for ordn, it in enumerate(fns):
                     if it["line_lo"] <= line <= it["line_hi"]:
                         missing.append((ordn, name))
+        newloops = set()
+        for d in diags:
+            if d.get("level") == "error" and "loop must have a decreases clause" in d.get("message", ""):
+                line = ([sp["line_start"] for sp in d.get("spans", []) if sp.get("is_primary")] or [0])[0]
+                fns = [x for x in u.items if x["kind"] == "fn" and not x.get("canary") and not x.get("auto")]
+                for ordn, it in enumerate(fns):
+                    if it["line_lo"] <= line <= it["line_hi"]:
+                        newloops.add(ordn)
+        if newloops - nodecr:
+            nodecr |= newloops
+            continue
         if not missing:
             break
         have = set(n for v in helpers.values() for n in v)
@@ -84,6 +96,7 @@ def run_unit(unit_name, repo, workdir, canary=False):
                 helpers.setdefault(ordn, []).append(name)
                 have.add(name)
     out["auto_helpers"] = sorted(set(n for v in helpers.values() for n in v))
+    out["loops_without_contract"] = len(nodecr)
     out["wall_s"] = round(dt, 2)
     out["cmd"] = cmd
     out["items"] = u.items
